@@ -20,7 +20,7 @@ import sys
 import common
 import c05
 from c05 import xcall, dump_of, raw_cells, Scratch, write_file, read_dump
-from bermuda import Triangle
+Triangle = c05.Triangle
 
 CORPUS = os.path.join(common.ROOT, "corpus")
 GOLDEN = os.path.join(CORPUS, "golden")
@@ -223,6 +223,8 @@ def rejection(ctx, drv, n):
 
 
 def correspondence(ctx):
+    if c05.import_failed(ctx):
+        return
     drv = common.Driver("drv_c06")
     c05.ensure_tables(ctx, "drv_c06", "Bermuda.Properties.C06")
     with Scratch() as scratch:
